@@ -215,7 +215,7 @@ def run(ctx):
     for p in sorted((ctx.dir / "corpus").glob("*.json")):
         for c in json.loads(p.read_text()):
             (strict_laws if "law" in c else corpus).append(c)
-    cases = corpus + gen_cases(ctx, G, r, 1 if ctx.quick else 3)
+    cases = corpus + gen_cases(ctx, G, r, 2 if ctx.quick else 12)
     # ---- implementation
     impl_in = [{k: v for k, v in c.items() if k != "a12"} for c in cases]
     for c, i in zip(cases, impl_in):
